@@ -16,15 +16,20 @@ an @error action, and the first Error delivered carries the first token at which
 being a prefix of any sentence. When parse() returns true, the symbols it consumed (input tokens in
 order, possibly with stretches replaced by @error) form a sentence."
 
-This file holds the RUNTIME half of C09: structural facts about `_recover` and the main loop of
-the executable model `Lox.LR.parse` (`Lox/LR/Model.lean`, transcribing `parserTemplate` in
-`internal/codegen/emit_parser.go`, including the `_recovering` flag of fix F12). Everything is
-proved for ARBITRARY tables, inputs and fuel; where a table-level hypothesis is needed
-(`NoShiftEOF`, `AcceptOnlyEOF`, a ranking of the simulation graph) it is decidable, comes with a
-checker proved sound, and is shown to hold on tables emitted by the real generator. The grammar
-half (sentences, viable prefixes, the reduce-chain bound) belongs to the LR theory
-(`Lox/LR/{Abstract,Sound,Complete,Refine}.lean`) and is NOT claimed here. What remains open for the
-full statement is listed at the end of the file.
+All theorems are about the executable model `Lox.LR.parse` (`Lox/LR/Model.lean`, transcribing
+`parserTemplate` in `internal/codegen/emit_parser.go`, including the `_recovering` flag of fix F12).
+
+* Sections (a)–(d) and "consumed symbols": structural facts about `_recover` and the main loop for
+  ARBITRARY tables, inputs and fuel; where a table-level hypothesis is needed (`NoShiftEOF`,
+  `AcceptOnlyEOF`, a ranking of the simulation graph) it is decidable, comes with a checker proved
+  sound, and is shown to hold on tables emitted by the real generator.
+* Section "On validated tables": the grammar half, for tables that pass the validator
+  (`checkSafe`/`check`, `termB`, `recoveryOKB`): `accepted_edit_is_sentence`, `error_delivered`,
+  `no_silent_accept`, `parse_no_panic`, `parse_terminates`/`parse_total`,
+  `first_error_token_partial`, `sentence_never_recovers`. They combine the runtime facts with the
+  LR theory of `Lox/LR/{Abstract,Sound,Complete,CheckSound,Refine,Terminate,TermSound}.lean`
+  (proofs in `Lox/LR/RuntimeSound*.lean`).
+What remains open is listed at the end of the file.
 
 Vocabulary (`Lox/LR/RuntimeDefs.lean`): `remaining inp s` = tokens the lexer has not delivered yet
 + 1 if the queued lookahead is a real token + 1 if the lookahead is a real token (real = neither
@@ -424,6 +429,18 @@ example : checkSafe Example.G 6 6 Example.T Example.cert = .ok () ∧
     wordOf (.node 1 [.node 4 [.node 7 [.node 3 [.err 1 4 [3, 5], .tok 2 5]]]]) = [1, 5] := by
   refine ⟨Example.checkSafe_ok, by decide +kernel, rfl, ?_⟩
   simp [wordOf, leaves, leavesL, leafNat, leafTy, tERROR]
+
+/-- Non-vacuity of `first_error_token_partial`: the example tables pass the full `check` with their
+LALR(1) item sets, and on `a c ;` the run is plain for one iteration (shift `a`), then state 1 has
+no action on `c` (token 1): `_recover()` injects `Error{Token: c, Expected: [B, SEMI]}`. -/
+example : check Example.G 6 6 Example.T Example.certL = .ok () ∧
+    ∃ s1 s s', readToken Example.T #[2, 4, 5] initState = .ok s1 ∧
+      PlainReach Example.T #[2, 4, 5] true 20 s1 s ∧ isRecoverStep Example.T s = true ∧
+      step Example.T #[2, 4, 5] true 20 s = .cont s' ∧ lidx s.lasym = 1 ∧
+      s'.lasym = .err 1 4 [3, 5] := by
+  refine ⟨Example.check_ok, _, _, _, rfl, .step ?_ rfl (.refl _), ?_, rfl, rfl, rfl⟩
+  · decide +kernel
+  · decide +kernel
 
 /-- Non-vacuity of `parse_terminates`: the generated example tables pass all three checks. -/
 example : checkSafe Example.G 6 6 Example.T Example.cert = .ok () ∧
